@@ -115,7 +115,10 @@ func RunC07(cfg simrt.Config, o world.Opts) *world.Result {
 			}
 		}
 		want, merr := p.Dump()
-		if merr != nil {
+		if p.ModelSilent != "" && p.Invalid == "" {
+			logf("reference model silent: %s", p.ModelSilent)
+			res.Count("c07.programs-without-a-model-verdict", 1)
+		} else if merr != nil {
 			logf("reference model: program is invalid (%v)", merr)
 			res.Count("c07.programs-invalid", 1)
 		} else {
@@ -183,6 +186,9 @@ func RunC07(cfg simrt.Config, o world.Opts) *world.Result {
 				}
 			}
 			// 2. reference model
+			if p.ModelSilent != "" && p.Invalid == "" {
+				continue // order independence only (checked above)
+			}
 			if merr != nil && got.ok {
 				res.Failf("C07/invalid-accepted", "%s: compiled a program the reference model rejects (%v)", desc, merr)
 				return
